@@ -1226,16 +1226,24 @@ class AsyncBackgroundBatcher(Generic[A_contra, R_co]):
                     "Sending batch of size %d to %s",
                     len(args), self.func,
                 )
-                async for key, result in self.func(args):
-                    fut = futs[key]
-                    if isinstance(result, Exception):
-                        fut.set_exception(result)
-                    else:
-                        fut.set_result(result)
-                    # Only forget the future once it has its answer:
-                    # setting it may fail (e.g. a StopIteration can't be
-                    # set on a future) and it must be failed below then
-                    del futs[key]
+                results = self.func(args)
+                try:
+                    async for key, result in results:
+                        fut = futs[key]
+                        if isinstance(result, Exception):
+                            fut.set_exception(result)
+                        else:
+                            fut.set_result(result)
+                        # Only forget the future once it has its answer:
+                        # setting it may fail (e.g. a StopIteration can't
+                        # be set on a future) and it must be failed below
+                        del futs[key]
+                finally:
+                    # If the loop was left early the function is still
+                    # suspended: finish it before giving up the slot
+                    aclose = getattr(results, 'aclose', None)
+                    if aclose is not None:
+                        await aclose()
         except BaseException as e:
             # Also covers errors which aren't an Exception, like the
             # CancelledError of something awaited by the function:
